@@ -246,7 +246,7 @@ func digest(ins []input) string {
 			case e.Kind == 'd':
 				fmt.Fprintf(&b, "D %s\n", e.Path)
 			default:
-				fmt.Fprintf(&b, "F %s %s\n", e.Path, e.Content)
+				fmt.Fprintf(&b, "F %s\n%s\n", e.Path, e.Content) // content starts on its own line so that `strip` sees comment lines
 			}
 		}
 	}
@@ -427,7 +427,7 @@ func (r *Repo) Buildable() map[string]bool {
 const shLib = `L(){ printf '%s %s\n' "$1" '@LABEL@' >> "${TMP_DIR%%/plz-out/tmp/*}/actions.log"; }; ` +
 	`D(){ for f in $(printf '%s\n' $SRCS | LC_ALL=C sort -u); do find -H "$f" | LC_ALL=C sort | while IFS= read -r g; do ` +
 	`if [ -L "$g" ] && [ "$g" != "$f" ]; then printf 'L %s>%s\n' "$g" "$(readlink "$g")"; elif [ -d "$g" ]; then printf 'D %s\n' "$g"; ` +
-	`else printf 'F %s ' "$g"; cat "$g"; printf '\n'; fi; done; done; }; ` +
+	`else printf 'F %s\n' "$g"; cat "$g"; printf '\n'; fi; done; done; }; ` +
 	`K(){ D | LC_ALL=C tr -c 'a-z0-9' '_' | tail -c 8; }; `
 
 // ShellCmd renders the command of a genrule.
